@@ -116,4 +116,12 @@ var items = []modItem{
 	{"Level", Item{Dir: "level", Kind: "func", Recv: "BlockEntity", Func: "UnpackXZ", Name: "BlockEntity_UnpackXZ"}},
 	{"Level", Item{Dir: "level", Kind: "cond", Recv: "BlockEntity", Func: "PackXZ", Err: "return false", Name: "BlockEntity_PackXZ_reject"}},
 	{"Level", Item{Dir: "level", Kind: "assign", Recv: "BlockEntity", Func: "PackXZ", Local: "b.XZ", Elem: "int8", Name: "BlockEntity_PackXZ_value"}},
+	// ---- chat (C17): the two rendering tables, the format-code pattern, the struct tags of the component types ----
+	{"Chat", Item{Dir: "chat", Kind: "table", Func: "fmtCode", Name: "fmtCode"}},
+	{"Chat", Item{Dir: "chat", Kind: "table", Func: "colors", Name: "colors"}},
+	{"Chat", Item{Dir: "chat", Kind: "strarg", Func: "fmtPat", Name: "fmtPat_src"}},
+	{"Chat", Item{Dir: "chat", Kind: "tags", Func: "Message", Name: "Message_tags"}},
+	{"Chat", Item{Dir: "chat", Kind: "tags", Func: "translateMsg", Name: "translateMsg_tags"}},
+	{"Chat", Item{Dir: "chat", Kind: "tags", Func: "ClickEvent", Name: "ClickEvent_tags"}},
+	{"Chat", Item{Dir: "chat", Kind: "tags", Func: "HoverEvent", Name: "HoverEvent_tags"}},
 }
